@@ -410,6 +410,8 @@ def check_backup_section(ctx):
 
 
 def check(ctx):
+    from . import c02 as _c02e
+    _c02e.check_who_may(ctx)      # only the listed functions remove or rename database files (the LOCK file is removed by destroy alone)
     check_parse_exact(ctx)
     check_handle_lock(ctx)
     check_tools(ctx)
